@@ -15,14 +15,30 @@ use crate::scenario::{self, jusize_arr, parse_usize_arr, pb, Content, Violation}
 use std::collections::{BTreeMap, BTreeSet};
 use std::path::PathBuf;
 
+/// One API call of an execution. Every script ends in the state "exactly the project's files".
+#[derive(Clone, Debug, PartialEq)]
+pub enum C11Op {
+    /// add_content(id of file i, text of file i)
+    Add(usize),
+    /// detour: add_content(id of file i, text of alternative content k); overwritten later by Add(i)
+    AddAlt { file: usize, alt: usize },
+    /// detour: add_content("extra/<k>.aidl", text of alternative content k); removed later
+    AddExtra(usize),
+    RemoveExtra(usize),
+    /// detour: remove_content(id of file i); re-added later by Add(i)
+    Remove(usize),
+    /// detour: an intermediate validate() whose result is only compared for panics
+    Validate,
+}
+
 #[derive(Clone, Debug, PartialEq)]
 pub struct C11Exec {
-    /// insertion order (indices into `files`)
-    pub order: Vec<usize>,
+    pub script: Vec<C11Op>,
     pub policy: Policy,
     pub n_callers: usize,
-    /// caller of: parser creation, each insertion (in `order`), the validation step
+    /// caller of: parser creation, each script op, the final validation step
     pub callers: Vec<usize>,
+    /// number of back-to-back final validations (all on one caller thread)
     pub repeats: usize,
     /// salt of the caller set (PerCaller base keys); a twin has the salt of its original
     pub salt: u64,
@@ -30,9 +46,48 @@ pub struct C11Exec {
     pub twin_of: Option<usize>,
 }
 
+impl C11Exec {
+    /// Order in which the final contents are inserted
+    pub fn order(&self) -> Vec<usize> {
+        let mut last: Vec<usize> = Vec::new();
+        for op in &self.script {
+            if let C11Op::Add(i) = op {
+                last.retain(|x| x != i);
+                last.push(*i);
+            }
+        }
+        last
+    }
+
+    pub fn has_detour(&self) -> bool {
+        self.script.iter().any(|o| !matches!(o, C11Op::Add(_)))
+            || self.order().len() != self.script.len()
+    }
+
+    /// Does the script end with exactly files 0..n, each with its own content?
+    pub fn ends_in_project(&self, n_files: usize, n_alts: usize) -> bool {
+        let mut ids: Vec<Option<bool>> = vec![None; n_files]; // Some(true): own content
+        let mut extras: Vec<bool> = vec![false; n_alts];
+        for op in &self.script {
+            match op {
+                C11Op::Add(i) if *i < n_files => ids[*i] = Some(true),
+                C11Op::AddAlt { file, alt } if *file < n_files && *alt < n_alts => ids[*file] = Some(false),
+                C11Op::AddExtra(k) if *k < n_alts => extras[*k] = true,
+                C11Op::RemoveExtra(k) if *k < n_alts => extras[*k] = false,
+                C11Op::Remove(i) if *i < n_files => ids[*i] = None,
+                C11Op::Validate => {}
+                _ => return false,
+            }
+        }
+        ids.iter().all(|x| *x == Some(true)) && extras.iter().all(|x| !*x)
+    }
+}
+
 #[derive(Clone, Debug, PartialEq)]
 pub struct C11Scenario {
     pub files: Vec<(String, Content)>,
+    /// alternative contents used by detours only
+    pub alts: Vec<Content>,
     pub execs: Vec<C11Exec>,
 }
 
@@ -107,11 +162,44 @@ pub fn generate(rng: &mut Rng, thorough: bool) -> (C11Scenario, String) {
         };
         files.push((path, content));
     }
+    // alternative contents for detours: prefer keys that are imported but not defined
+    let mut defined: BTreeSet<String> = BTreeSet::new();
+    let mut imported: Vec<String> = Vec::new();
+    for (_, c) in &files {
+        if let Some(d) = c.as_doc() {
+            defined.insert(d.key());
+            for i in &d.imports {
+                if i.matches('.').count() >= 1 {
+                    imported.push(i.clone());
+                }
+            }
+        }
+    }
+    let undefined: Vec<String> = imported.iter().filter(|k| !defined.contains(*k)).cloned().collect();
+    let n_alts = rng.range(1, 3);
+    let mut alts: Vec<Content> = Vec::new();
+    for a in 0..n_alts {
+        let key = if !undefined.is_empty() && rng.pct(60) {
+            rng.pick(&undefined).clone()
+        } else if !imported.is_empty() && rng.pct(50) {
+            rng.pick(&imported).clone()
+        } else {
+            rng.pick(&u.keys()).clone()
+        };
+        let (pkg, name) = key.rsplit_once('.').unwrap_or(("p", "Foo"));
+        let kind = *rng.pick(&Kind::ALL);
+        let doc = gen::gen_doc(rng, &u, &knobs.gen, pkg, name, kind, 5000 + a as u64);
+        alts.push(if rng.pct(15) {
+            Content::Raw(gen::gen_malformed(rng, &doc))
+        } else {
+            Content::Doc(doc)
+        });
+    }
     // executions
     let n = files.len();
     let mut execs = Vec::new();
     execs.push(C11Exec {
-        order: (0..n).collect(),
+        script: (0..n).map(C11Op::Add).collect(),
         policy: Policy::Const(0),
         n_callers: 1,
         callers: vec![0; n + 2],
@@ -119,6 +207,7 @@ pub fn generate(rng: &mut Rng, thorough: bool) -> (C11Scenario, String) {
         salt: 0,
         twin_of: None,
     });
+    let p_detour = *rng.pick(&[0u32, 25, 50]);
     for e in 1..knobs.n_execs {
         let mut order: Vec<usize> = (0..n).collect();
         match rng.below(4) {
@@ -128,6 +217,72 @@ pub fn generate(rng: &mut Rng, thorough: bool) -> (C11Scenario, String) {
                 order.rotate_left(r);
             }
             _ => rng.shuffle(&mut order),
+        }
+        let mut script: Vec<C11Op> = order.iter().map(|i| C11Op::Add(*i)).collect();
+        if rng.pct(p_detour) {
+            // 1..3 detours through other states; the final state is the project again
+            let p_validate = *rng.pick(&[30u32, 70, 100]);
+            for _ in 0..rng.range(1, 3) {
+                let k = rng.below(alts.len());
+                let fi = rng.below(n);
+                let pos_add = script.iter().position(|o| *o == C11Op::Add(fi)).unwrap_or(0);
+                let mut ins: Vec<(usize, Vec<C11Op>)> = Vec::new();
+                let val = |rng: &mut Rng, v: &mut Vec<C11Op>| {
+                    if rng.pct(p_validate) {
+                        v.push(C11Op::Validate);
+                    }
+                };
+                match rng.below(4) {
+                    0 => {
+                        // an extra file comes and goes
+                        if script.iter().any(|o| matches!(o, C11Op::AddExtra(x) if *x == k)) {
+                            continue;
+                        }
+                        let a = rng.below(script.len() + 1);
+                        let b = rng.range(a, script.len());
+                        let mut v1 = vec![C11Op::AddExtra(k)];
+                        val(rng, &mut v1);
+                        let mut v2 = vec![C11Op::RemoveExtra(k)];
+                        val(rng, &mut v2);
+                        ins.push((b, v2));
+                        ins.push((a, v1));
+                    }
+                    1 => {
+                        // the id first holds another content
+                        let a = rng.below(pos_add + 1);
+                        let mut v = vec![C11Op::AddAlt { file: fi, alt: k }];
+                        val(rng, &mut v);
+                        ins.push((a, v));
+                    }
+                    2 => {
+                        // removed and re-added
+                        let mut v = Vec::new();
+                        val(rng, &mut v);
+                        v.push(C11Op::Remove(fi));
+                        val(rng, &mut v);
+                        v.push(C11Op::Add(fi));
+                        let a = rng.range(pos_add + 1, script.len());
+                        ins.push((a, v));
+                    }
+                    _ => {
+                        // replaced by another content and back
+                        let mut v = Vec::new();
+                        val(rng, &mut v);
+                        v.push(C11Op::AddAlt { file: fi, alt: k });
+                        val(rng, &mut v);
+                        v.push(C11Op::Add(fi));
+                        let a = rng.range(pos_add + 1, script.len());
+                        ins.push((a, v));
+                    }
+                }
+                // insert from the back so that positions stay valid
+                ins.sort_by(|x, y| y.0.cmp(&x.0));
+                for (at, ops) in ins {
+                    for (j, op) in ops.into_iter().enumerate() {
+                        script.insert(at + j, op);
+                    }
+                }
+            }
         }
         let key = match rng.below(3) {
             0 => rng.below(16) as u64,
@@ -139,16 +294,19 @@ pub fn generate(rng: &mut Rng, thorough: bool) -> (C11Scenario, String) {
             _ => Policy::PerCaller(key),
         };
         let n_callers = rng.range(1, 4);
-        let callers = (0..n + 2).map(|_| rng.below(n_callers)).collect();
-        execs.push(C11Exec {
-            order,
+        let callers = (0..script.len() + 2).map(|_| rng.below(n_callers)).collect();
+        let repeats = if rng.pct(6) { rng.range(20, 150) } else { rng.range(1, 3) };
+        let ex = C11Exec {
+            script,
             policy,
             n_callers,
             callers,
-            repeats: rng.range(1, 3),
+            repeats,
             salt: e as u64,
             twin_of: None,
-        });
+        };
+        debug_assert!(ex.ends_in_project(n, alts.len()));
+        execs.push(ex);
     }
     // verbatim twin of one execution
     let of = rng.below(execs.len());
@@ -156,20 +314,22 @@ pub fn generate(rng: &mut Rng, thorough: bool) -> (C11Scenario, String) {
     twin.twin_of = Some(of);
     execs.push(twin);
     let desc = format!(
-        "files={} dup={} malformed={} execs={} universe={}x{} {}",
+        "files={} dup={} malformed={} execs={} detour={} universe={}x{} {}",
         knobs.n_files,
         knobs.p_dup_key,
         knobs.p_malformed,
         execs.len(),
+        p_detour,
         u.pkgs.len(),
         u.names.len(),
         knobs.gen.describe()
     );
-    (C11Scenario { files, execs }, desc)
+    (C11Scenario { files, alts, execs }, desc)
 }
 
-/// Run one execution against the real library
-pub fn execute(texts: &[(PathBuf, String)], e: &C11Exec) -> Vec<Outcome> {
+/// Run one execution against the real library. Returns the final observations; of a long
+/// series of repetitions only the first one and the first one that differs from it are kept.
+pub fn execute(texts: &[(PathBuf, String)], alts: &[String], e: &C11Exec) -> Vec<Outcome> {
     let callers = Callers::new(e.n_callers, e.policy, e.salt);
     let policy = e.policy;
     let caller_of = |i: usize| e.callers.get(i).copied().unwrap_or(0);
@@ -178,26 +338,51 @@ pub fn execute(texts: &[(PathBuf, String)], e: &C11Exec) -> Vec<Outcome> {
         P::new()
     });
     let mut step = 1u64;
-    for (pos, &fi) in e.order.iter().enumerate() {
-        let (path, text) = texts[fi].clone();
-        let (p, panic) = callers.exec(caller_of(pos + 1), move || {
+    for (pos, op) in e.script.iter().enumerate() {
+        let c = caller_of(pos + 1);
+        let add: Option<(PathBuf, String)> = match op {
+            C11Op::Add(i) => Some(texts[*i].clone()),
+            C11Op::AddAlt { file, alt } => Some((texts[*file].0.clone(), alts[*alt].clone())),
+            C11Op::AddExtra(k) => Some((PathBuf::from(format!("extra/{k}.aidl")), alts[*k].clone())),
+            _ => None,
+        };
+        let remove: Option<PathBuf> = match op {
+            C11Op::RemoveExtra(k) => Some(PathBuf::from(format!("extra/{k}.aidl"))),
+            C11Op::Remove(i) => Some(texts[*i].0.clone()),
+            _ => None,
+        };
+        let (p, panic) = callers.exec(c, move || {
             policy.install(step);
             let mut parser = parser;
-            let panic = exec::add_content(&mut parser, path, &text);
+            let mut panic = None;
+            if let Some((path, text)) = add {
+                panic = exec::add_content(&mut parser, path.clone(), &text)
+                    .map(|m| format!("add_content({}): {m}", path.display()));
+            } else if let Some(path) = remove {
+                parser.remove_content(path);
+            } else if let Outcome::Panic(m) = exec::observe(&parser) {
+                panic = Some(format!("intermediate validate(): {m}"));
+            }
             (parser, panic)
         });
         parser = p;
         if let Some(m) = panic {
-            return vec![Outcome::Panic(format!("add_content({}): {m}", texts[fi].0.display()))];
+            return vec![Outcome::Panic(m)];
         }
         step += 1;
     }
     let repeats = e.repeats.max(1);
-    callers.exec(caller_of(e.order.len() + 1), move || {
+    callers.exec(caller_of(e.script.len() + 1), move || {
         let mut v = Vec::new();
         for r in 0..repeats {
             policy.install(step + r as u64);
-            v.push(exec::observe(&parser));
+            let o = exec::observe(&parser);
+            if r < 3 {
+                v.push(o);
+            } else if canon::first_difference(&v[0], &o).is_some() {
+                v.push(o);
+                break;
+            }
         }
         // the parser is dropped on this caller
         v
@@ -275,6 +460,7 @@ pub fn scenario_digest(s: &C11Scenario) -> u64 {
 
 pub fn run(s: &C11Scenario) -> C11Run {
     let texts: Vec<(PathBuf, String)> = s.files.iter().map(|(p, c)| (pb(p), c.text())).collect();
+    let alt_texts: Vec<String> = s.alts.iter().map(|c| c.text()).collect();
     let mut probes = C11Probes {
         files: s.files.len(),
         ..Default::default()
@@ -312,7 +498,7 @@ pub fn run(s: &C11Scenario) -> C11Run {
     probes.duplicate_key_kinds_differ = keys.values().any(|k| k.len() >= 2);
     probes.configs_differ = s.execs.len() >= 2
         && s.execs.iter().any(|e| {
-            e.twin_of.is_none() && (e.order != s.execs[0].order || e.policy != s.execs[0].policy)
+            e.twin_of.is_none() && (e.script != s.execs[0].script || e.policy != s.execs[0].policy)
         });
 
     let mut out = Digest::new();
@@ -321,8 +507,8 @@ pub fn run(s: &C11Scenario) -> C11Run {
     let mut steps = 0usize;
     let mut table_policies: BTreeMap<&'static str, usize> = BTreeMap::new();
     for e in &s.execs {
-        let o = execute(&texts, e);
-        steps += e.order.len() + 1 + e.repeats;
+        let o = execute(&texts, &alt_texts, e);
+        steps += e.script.len() + 1 + e.repeats;
         *table_policies.entry(e.policy.name()).or_default() += 1;
         for x in &o {
             out.str(&canon::canon_outcome(x));
@@ -402,22 +588,28 @@ pub fn run(s: &C11Scenario) -> C11Run {
                 }
                 if let Some((file, what)) = canon::first_difference(base, o) {
                     let e = &s.execs[ei];
-                    let why = if ei == 0 || (e.order == s.execs[0].order && e.policy == s.execs[0].policy) {
-                        "repetition / caller".to_owned()
-                    } else if e.order == s.execs[0].order {
-                        "hash keys".to_owned()
-                    } else if e.policy == s.execs[0].policy {
-                        "insertion order".to_owned()
-                    } else {
-                        "hash keys and insertion order".to_owned()
-                    };
+                    let e0 = &s.execs[0];
+                    let mut why: Vec<&str> = Vec::new();
+                    if e.policy != e0.policy {
+                        why.push("hash keys");
+                    }
+                    if e.order() != e0.order() {
+                        why.push("insertion order");
+                    }
+                    if e.has_detour() {
+                        why.push("detour through other states (replace / remove / extra file)");
+                    }
+                    if why.is_empty() {
+                        why.push("repetition / caller thread");
+                    }
+                    let why = why.join(", ");
                     violation = Some(Violation {
                         property: "C11",
                         clause: "differs".to_owned(),
                         signature: format!("differs:{what}"),
                         detail: format!(
-                            "execution {ei} repetition {ri} ({:?}, order {:?}) differs from execution 0 in the {what} of file {file}; the executions differ in: {why}",
-                            e.policy, e.order
+                            "execution {ei} repetition {ri} ({:?}, script {}) differs from execution 0 in the {what} of file {file}; the executions differ in: {why}",
+                            e.policy, script_str(&e.script)
                         ),
                         left: excerpt(base, &file),
                         right: excerpt(o, &file),
@@ -465,6 +657,63 @@ pub fn excerpt(o: &Outcome, file: &str) -> String {
 // JSON
 // ---------------------------------------------------------------------------------------------
 
+pub fn script_str(v: &[C11Op]) -> String {
+    let parts: Vec<String> = v
+        .iter()
+        .map(|o| match o {
+            C11Op::Add(i) => format!("+{i}"),
+            C11Op::AddAlt { file, alt } => format!("+{file}:alt{alt}"),
+            C11Op::AddExtra(k) => format!("+x{k}"),
+            C11Op::RemoveExtra(k) => format!("-x{k}"),
+            C11Op::Remove(i) => format!("-{i}"),
+            C11Op::Validate => "v".to_owned(),
+        })
+        .collect();
+    format!("[{}]", parts.join(" "))
+}
+
+fn script_json(v: &[C11Op]) -> J {
+    J::Arr(
+        v.iter()
+            .map(|o| match o {
+                C11Op::Add(i) => J::obj().set("add", J::u(*i as u64)),
+                C11Op::AddAlt { file, alt } => J::obj().set("add_alt", jusize_arr(&[*file, *alt])),
+                C11Op::AddExtra(k) => J::obj().set("add_extra", J::u(*k as u64)),
+                C11Op::RemoveExtra(k) => J::obj().set("remove_extra", J::u(*k as u64)),
+                C11Op::Remove(i) => J::obj().set("remove", J::u(*i as u64)),
+                C11Op::Validate => J::s("validate"),
+            })
+            .collect(),
+    )
+}
+
+fn script_from_json(j: &J) -> Result<Vec<C11Op>, String> {
+    let mut v = Vec::new();
+    for o in j.as_arr().ok_or("script must be an array")? {
+        let n = |k: &str| o.get(k).and_then(|x| x.as_u64()).map(|x| x as usize);
+        if o.as_str() == Some("validate") {
+            v.push(C11Op::Validate);
+        } else if let Some(i) = n("add") {
+            v.push(C11Op::Add(i));
+        } else if let Some(k) = n("add_extra") {
+            v.push(C11Op::AddExtra(k));
+        } else if let Some(k) = n("remove_extra") {
+            v.push(C11Op::RemoveExtra(k));
+        } else if let Some(i) = n("remove") {
+            v.push(C11Op::Remove(i));
+        } else if o.get("add_alt").is_some() {
+            let a = parse_usize_arr(o.get("add_alt"))?;
+            if a.len() != 2 {
+                return Err("add_alt needs [file, alt]".to_owned());
+            }
+            v.push(C11Op::AddAlt { file: a[0], alt: a[1] });
+        } else {
+            return Err("unknown script op".to_owned());
+        }
+    }
+    Ok(v)
+}
+
 pub fn to_json(s: &C11Scenario) -> J {
     J::obj()
         .set(
@@ -476,6 +725,7 @@ pub fn to_json(s: &C11Scenario) -> J {
                     .collect(),
             ),
         )
+        .set("alts", J::Arr(s.alts.iter().map(|c| J::s(c.text())).collect()))
         .set(
             "executions",
             J::Arr(
@@ -483,7 +733,7 @@ pub fn to_json(s: &C11Scenario) -> J {
                     .iter()
                     .map(|e| {
                         let mut o = J::obj()
-                            .set("order", jusize_arr(&e.order))
+                            .set("script", script_json(&e.script))
                             .set("policy", e.policy.to_json())
                             .set("n_callers", J::u(e.n_callers as u64))
                             .set("callers", jusize_arr(&e.callers))
@@ -514,7 +764,7 @@ pub fn from_json(j: &J) -> Result<C11Scenario, String> {
         .ok_or("executions missing")?
     {
         execs.push(C11Exec {
-            order: parse_usize_arr(e.get("order"))?,
+            script: script_from_json(e.get("script").ok_or("script missing")?)?,
             policy: Policy::from_json(e.get("policy").ok_or("policy missing")?)?,
             n_callers: e.get("n_callers").and_then(|v| v.as_u64()).ok_or("n_callers")? as usize,
             callers: parse_usize_arr(e.get("callers"))?,
@@ -523,9 +773,15 @@ pub fn from_json(j: &J) -> Result<C11Scenario, String> {
             twin_of: e.get("twin_of").and_then(|v| v.as_u64()).map(|v| v as usize),
         });
     }
+    let mut alts = Vec::new();
+    if let Some(a) = j.get("alts").and_then(|a| a.as_arr()) {
+        for x in a {
+            alts.push(Content::Raw(x.as_str().ok_or("alt text expected")?.to_owned()));
+        }
+    }
     for e in &execs {
-        if e.order.iter().any(|i| *i >= files.len()) {
-            return Err("order index out of range".to_owned());
+        if !e.ends_in_project(files.len(), alts.len()) {
+            return Err("an execution does not end in the project's state".to_owned());
         }
         if e.n_callers == 0 {
             return Err("n_callers is 0".to_owned());
@@ -534,7 +790,7 @@ pub fn from_json(j: &J) -> Result<C11Scenario, String> {
     if execs.is_empty() {
         return Err("no executions".to_owned());
     }
-    Ok(C11Scenario { files, execs })
+    Ok(C11Scenario { files, alts, execs })
 }
 
 // ---------------------------------------------------------------------------------------------
@@ -592,24 +848,101 @@ pub fn shrink_candidates(s: &C11Scenario) -> Vec<C11Scenario> {
             }
         }
     }
+    // drop detour ops (keep only candidates that still end in the project's state)
+    for ei in 0..s.execs.len() {
+        let e = &s.execs[ei];
+        if e.twin_of.is_some() || !e.has_detour() {
+            continue;
+        }
+        let twins: Vec<usize> = s
+            .execs
+            .iter()
+            .enumerate()
+            .filter(|(_, t)| t.twin_of == Some(ei))
+            .map(|(i, _)| i)
+            .collect();
+        let mut variants: Vec<C11Exec> = Vec::new();
+        // all detours at once
+        let mut plain = e.clone();
+        plain.script = e.order().into_iter().map(C11Op::Add).collect();
+        plain.callers = vec![0; plain.script.len() + 2];
+        variants.push(plain);
+        for k in 0..e.script.len() {
+            let mut v = e.clone();
+            v.script.remove(k);
+            if k + 1 < v.callers.len() {
+                v.callers.remove(k + 1);
+            }
+            variants.push(v);
+            // pairs: AddExtra + RemoveExtra
+            if let C11Op::AddExtra(x) = e.script[k] {
+                if let Some(k2) = e.script.iter().position(|o| *o == C11Op::RemoveExtra(x)) {
+                    let mut v = e.clone();
+                    let (a, b) = if k < k2 { (k, k2) } else { (k2, k) };
+                    v.script.remove(b);
+                    v.script.remove(a);
+                    if b + 1 < v.callers.len() {
+                        v.callers.remove(b + 1);
+                    }
+                    if a + 1 < v.callers.len() {
+                        v.callers.remove(a + 1);
+                    }
+                    variants.push(v);
+                }
+            }
+        }
+        for v in variants {
+            if !v.ends_in_project(s.files.len(), s.alts.len()) {
+                continue;
+            }
+            let mut c = s.clone();
+            c.execs[ei] = v.clone();
+            for t in &twins {
+                let mut tv = v.clone();
+                tv.twin_of = Some(ei);
+                c.execs[*t] = tv;
+            }
+            out.push(c);
+        }
+    }
     // drop files
     for fi in (0..s.files.len()).rev() {
         let mut c = s.clone();
         c.files.remove(fi);
         for e in c.execs.iter_mut() {
-            if let Some(pos) = e.order.iter().position(|x| *x == fi) {
-                e.order.remove(pos);
-                if pos + 1 < e.callers.len() {
-                    e.callers.remove(pos + 1);
-                }
-            }
-            for x in e.order.iter_mut() {
-                if *x > fi {
-                    *x -= 1;
+            let mut k = 0;
+            while k < e.script.len() {
+                let hit = match &e.script[k] {
+                    C11Op::Add(i) | C11Op::Remove(i) => *i == fi,
+                    C11Op::AddAlt { file, .. } => *file == fi,
+                    _ => false,
+                };
+                if hit {
+                    e.script.remove(k);
+                    if k + 1 < e.callers.len() {
+                        e.callers.remove(k + 1);
+                    }
+                } else {
+                    match &mut e.script[k] {
+                        C11Op::Add(i) | C11Op::Remove(i) => {
+                            if *i > fi {
+                                *i -= 1;
+                            }
+                        }
+                        C11Op::AddAlt { file, .. } => {
+                            if *file > fi {
+                                *file -= 1;
+                            }
+                        }
+                        _ => {}
+                    }
+                    k += 1;
                 }
             }
         }
-        out.push(c);
+        if c.execs.iter().all(|e| e.ends_in_project(c.files.len(), c.alts.len())) {
+            out.push(c);
+        }
     }
     // simplify executions
     for ei in 0..s.execs.len() {
@@ -629,6 +962,11 @@ pub fn shrink_candidates(s: &C11Scenario) -> Vec<C11Scenario> {
             let mut v = e.clone();
             v.repeats = 1;
             variants.push(v);
+            if e.repeats > 4 {
+                let mut v = e.clone();
+                v.repeats = e.repeats / 2;
+                variants.push(v);
+            }
         }
         if e.n_callers > 1 || e.callers.iter().any(|c| *c != 0) {
             let mut v = e.clone();
@@ -637,11 +975,13 @@ pub fn shrink_candidates(s: &C11Scenario) -> Vec<C11Scenario> {
             variants.push(v);
         }
         if ei != 0 {
-            let sorted: Vec<usize> = (0..s.files.len()).collect();
-            if e.order != sorted {
-                let mut v = e.clone();
-                v.order = sorted;
-                variants.push(v);
+            if !e.has_detour() {
+                let sorted: Vec<C11Op> = (0..s.files.len()).map(C11Op::Add).collect();
+                if e.script != sorted {
+                    let mut v = e.clone();
+                    v.script = sorted;
+                    variants.push(v);
+                }
             }
             for p in [Policy::Const(0), Policy::Const(1), Policy::Const(2)] {
                 if e.policy != p {
@@ -664,6 +1004,14 @@ pub fn shrink_candidates(s: &C11Scenario) -> Vec<C11Scenario> {
                 tv.twin_of = Some(ei);
                 c.execs[*t] = tv;
             }
+            out.push(c);
+        }
+    }
+    // shrink alternative contents
+    for ai in 0..s.alts.len() {
+        for smaller in s.alts[ai].shrink() {
+            let mut c = s.clone();
+            c.alts[ai] = smaller;
             out.push(c);
         }
     }
